@@ -614,7 +614,7 @@ pub fn supervisor_main(prop: &mut dyn Prop, tier: Tier, seed: u64, make_args: &d
             None => new_sigs.push(sig.clone()),
         }
     }
-    let replay_dir = verif_home().join("replays");
+    let replay_dir = if std::env::var("VERIF_REPO_PATH").map(|r| r != "/repo").unwrap_or(false) { run_dir().join("replays-scratch") } else { verif_home().join("replays") };
     let _ = std::fs::create_dir_all(&replay_dir);
     let mut viol_lines = vec![];
     for (k, sig) in new_sigs.iter().enumerate() {
@@ -675,7 +675,10 @@ pub fn supervisor_main(prop: &mut dyn Prop, tier: Tier, seed: u64, make_args: &d
         "wall_s": wall,
         "violations": new_sigs.len() as i64,
     });
-    let evdir = verif_home().join("evidence");
+    // runs aimed at a scratch copy of the repository (mutation validation) must not overwrite the
+    // evidence of the repository under test
+    let repo_under_test = std::env::var("VERIF_REPO_PATH").unwrap_or_else(|_| "/repo".to_string());
+    let evdir = if repo_under_test == "/repo" { verif_home().join("evidence") } else { run_dir().join("evidence-scratch") };
     let _ = std::fs::create_dir_all(&evdir);
     let evpath = evdir.join(format!("{}.json", id));
     let tmp = evdir.join(format!("{}.json.{}.tmp", id, std::process::id()));
